@@ -163,6 +163,8 @@ def gen_c09(seed, policy=None):
     if rng.random() < 0.2:
         scn = S.rename_sids(scn)  # the error must name the simulator whatever characters its id contains
     if rng.random() < 0.3:
+        scn["world_positional"] = True  # the bound reaches the World as the sixth POSITIONAL argument of the constructor
+    if rng.random() < 0.3:
         # the bound is assigned (world.max_loop_iterations = n) after the simulators were started; the constructor got another value
         scn["maxloop_late"] = rng.choice([100, 0, scn["maxloop"] + 2, max(0, scn["maxloop"] - 1), 1])
     if rng.random() < 0.25:
